@@ -1,6 +1,6 @@
 // replay for property C17, harness c17_completion_step (/verif/harness/anapaya-edge-tun/c17_defrag.rs)
 // failed checks reported by CBMC:
-//   attempt to add with overflow @ ../harness/anapaya-edge-tun/c17_defrag.rs:515:18 in function fragmenting::verif_c17::completion_step
+//   "packet emitted although a frame in front of the last one is missing" @ ../harness/anapaya-edge-tun/c17_defrag.rs:549:13 in function fragmenting::verif_c17::completion_step
 //! verif-attach: file=crates/libs/anapaya-edge-tun/src/fragmenting.rs crate=anapaya-edge-tun mod=verif_c17
 //!
 //! C17 — tunnel reassembly emits only intact packets, at most once, in any frame order.
@@ -230,7 +230,7 @@ fn total<const K: usize, const Q: usize, const FR: usize>() {
     std::mem::forget(d);
 }
 
-// verif: prop=C17 tier=quick cap=900 cbmc_args="--arrays-uf-always" bound="2 slots, 3 arbitrary byte strings <= 316 B as frames through recv_fallible (incl. shorter than a header)" fns="DefragmenterInner::{recv_fallible,select_queue},FragmentFrameRef::from_slice,DefragQueue::{init,ingest_frame}" stubs="prometheus counters inc/inc_by -> no-op"
+// verif: prop=C17 tier=thorough cap=3000 mem=30 cbmc_args="--arrays-uf-always" bound="2 slots, 3 arbitrary byte strings <= 316 B as frames through recv_fallible (incl. shorter than a header)" fns="DefragmenterInner::{recv_fallible,select_queue},FragmentFrameRef::from_slice,DefragQueue::{init,ingest_frame}" stubs="prometheus counters inc/inc_by -> no-op"
 #[kani::proof]
 #[kani::unwind(4)]
 #[kani::stub(prometheus::core::GenericCounter::inc, inc_stub)]
@@ -415,7 +415,7 @@ fn c17_honest_f4_n5() {
     honest::<5, 4, false>(None)
 }
 
-// verif: prop=C17 tier=quick cap=900 cbmc_args="--arrays-uf-always" bound="honest sender, window 256, packet of 257..768 bytes (2..3 frames), 4 deliveries in any order with duplicates: the emitted packet is byte-identical to the sent one" fns="DefragQueue::{init,ingest_frame}" stubs="none"
+// verif: prop=C17 tier=thorough cap=3000 mem=30 cbmc_args="--arrays-uf-always" bound="honest sender, window 256, packet of 257..768 bytes (2..3 frames), 4 deliveries in any order with duplicates: the emitted packet is byte-identical to the sent one" fns="DefragQueue::{init,ingest_frame}" stubs="none"
 #[kani::proof]
 #[kani::unwind(5)]
 fn c17_honest_bytes_f3_n4() {
@@ -515,7 +515,7 @@ fn completion_step() {
     let have_last: bool = kani::any();
     let lo: u16 = kani::any();
     let ll: usize = kani::any();
-    kani::assume(lo as usize + ll <= MAX_PACKET_SIZE);
+    kani::assume(ll <= MAX_PACKET_SIZE && lo as usize + ll <= MAX_PACKET_SIZE);
     q.frame_window_size = if have_w { Some(w) } else { None };
     q.last_frame_offset = if have_last { Some(lo) } else { None };
     q.final_packet_size = if have_last { Some(lo as usize + ll) } else { None };
@@ -566,33 +566,35 @@ mod verif_playback {
     use super::*;
 /// Test generated for harness `fragmenting::verif_c17::c17_completion_step` 
 ///
-/// Check for `assertion`: "attempt to add with overflow"
+/// Check for `assertion`: ""packet emitted although a frame in front of the last one is missing""
 
 #[test]
-fn kani_concrete_playback_c17_completion_step_3864439831386249784() {
+fn kani_concrete_playback_c17_completion_step_2435380139503174176() {
     let concrete_vals: Vec<Vec<u8>> = vec![
         // 18446744073709551615ul
         vec![255, 255, 255, 255, 255, 255, 255, 255],
+        // 257ul
+        vec![1, 1, 0, 0, 0, 0, 0, 0],
+        // 65021
+        vec![253, 253],
+        // 1
+        vec![1],
+        // 65535
+        vec![255, 255],
+        // 127ul
+        vec![127, 0, 0, 0, 0, 0, 0, 0],
+        // 257ul
+        vec![1, 1, 0, 0, 0, 0, 0, 0],
+        // 1
+        vec![1],
+        // 0
+        vec![0],
+        // 65535
+        vec![255, 255],
         // 0ul
         vec![0, 0, 0, 0, 0, 0, 0, 0],
-        // 18570
-        vec![138, 72],
         // 1
         vec![1],
-        // 32768
-        vec![0, 128],
-        // 256ul
-        vec![0, 1, 0, 0, 0, 0, 0, 0],
-        // 65535ul
-        vec![255, 255, 0, 0, 0, 0, 0, 0],
-        // 1
-        vec![1],
-        // 1
-        vec![1],
-        // 32761
-        vec![249, 127],
-        // 18446744073709535237ul
-        vec![5, 192, 255, 255, 255, 255, 255, 255],
     ];
     let mut concrete_vals = concrete_vals;
     concrete_vals.extend(std::iter::repeat(vec![0u8]).take(8192));
@@ -604,26 +606,26 @@ fn kani_concrete_playback_c17_completion_step_3864439831386249784() {
 /// Check for `cover`: "packet of more than 130 frames completed"
 
 #[test]
-fn kani_concrete_playback_c17_completion_step_18374057221755550494() {
+fn kani_concrete_playback_c17_completion_step_2435380139503174176() {
     let concrete_vals: Vec<Vec<u8>> = vec![
         // 18446744073709551615ul
         vec![255, 255, 255, 255, 255, 255, 255, 255],
         // 257ul
         vec![1, 1, 0, 0, 0, 0, 0, 0],
-        // 0
-        vec![0, 0],
-        // 0
-        vec![0],
+        // 65021
+        vec![253, 253],
+        // 1
+        vec![1],
         // 65535
         vec![255, 255],
-        // 126ul
-        vec![126, 0, 0, 0, 0, 0, 0, 0],
+        // 127ul
+        vec![127, 0, 0, 0, 0, 0, 0, 0],
         // 257ul
         vec![1, 1, 0, 0, 0, 0, 0, 0],
         // 1
         vec![1],
-        // 1
-        vec![1],
+        // 0
+        vec![0],
         // 65535
         vec![255, 255],
         // 0ul
@@ -641,30 +643,30 @@ fn kani_concrete_playback_c17_completion_step_18374057221755550494() {
 /// Check for `cover`: "two-frame packet completed"
 
 #[test]
-fn kani_concrete_playback_c17_completion_step_16782992484423231644() {
+fn kani_concrete_playback_c17_completion_step_7240741542188013534() {
     let concrete_vals: Vec<Vec<u8>> = vec![
         // 0ul
         vec![0, 0, 0, 0, 0, 0, 0, 0],
-        // 4ul
-        vec![4, 0, 0, 0, 0, 0, 0, 0],
-        // 32768
-        vec![0, 128],
+        // 283ul
+        vec![27, 1, 0, 0, 0, 0, 0, 0],
+        // 58427
+        vec![59, 228],
         // 1
         vec![1],
         // 32768
         vec![0, 128],
-        // 0ul
-        vec![0, 0, 0, 0, 0, 0, 0, 0],
-        // 32768ul
-        vec![0, 128, 0, 0, 0, 0, 0, 0],
+        // 384ul
+        vec![128, 1, 0, 0, 0, 0, 0, 0],
+        // 58427ul
+        vec![59, 228, 0, 0, 0, 0, 0, 0],
         // 1
         vec![1],
         // 0
         vec![0],
-        // 32769
-        vec![1, 128],
-        // 7ul
-        vec![7, 0, 0, 0, 0, 0, 0, 0],
+        // 57438
+        vec![94, 224],
+        // 4065ul
+        vec![225, 15, 0, 0, 0, 0, 0, 0],
         // 1
         vec![1],
     ];
@@ -675,7 +677,7 @@ fn kani_concrete_playback_c17_completion_step_16782992484423231644() {
 }
 
 // native replay (sliced trace; cargo kani playback, dev profile, real code):
-//   kani_concrete_playback_c17_completion_step_3864439831386249784: did not reproduce (attempt to add with overflow)
-//   kani_concrete_playback_c17_completion_step_18374057221755550494: did not reproduce (cover:packet of more than 130 frames completed)
-//   kani_concrete_playback_c17_completion_step_16782992484423231644: did not reproduce (cover:two-frame packet completed)
+//   kani_concrete_playback_c17_completion_step_2435380139503174176: did not reproduce (packet emitted although a frame in front of the last one is missing)
+//   kani_concrete_playback_c17_completion_step_2435380139503174176: did not reproduce (cover:packet of more than 130 frames completed)
+//   kani_concrete_playback_c17_completion_step_7240741542188013534: did not reproduce (cover:two-frame packet completed)
 // re-run: bin/check C17 --replay /verif/replays/C17/c17_completion_step.rs
